@@ -5,74 +5,114 @@ import YaegiVerif.Spec.GoDefer
 -/
 namespace YaegiVerif.Unwind
 
-/-- the tree contains a panic statement (explicit or fault) somewhere: in the body, in a callee, in a deferred callee -/
-def mayPanic : Code → Bool
+/-- `recover()` (in any of its forms) is written directly in this body, in live code -/
+def directRecover : Code → Bool
   | .done => false
-  | .print _ k => mayPanic k
-  | .printArg k => mayPanic k
-  | .call f _ _ k => mayPanic f || mayPanic k
-  | .defer f _ k => mayPanic f || mayPanic k
-  | .deferBin _ _ k => mayPanic k
-  | .deferDel _ k => mayPanic k
-  | .probe _ k => mayPanic k
-  | .panic _ _ => true
-  | .recover _ k => mayPanic k
+  | .print _ k => directRecover k
+  | .printArg k => directRecover k
+  | .call _ _ _ k => directRecover k
+  | .defer _ _ k => directRecover k
+  | .deferVar _ _ k => directRecover k
+  | .deferBin _ _ k => directRecover k
+  | .deferDel _ k => directRecover k
+  | .deferPanic _ k => directRecover k
+  | .probe _ k => directRecover k
+  | .panic _ _ => false
+  | .recover _ _ => true
+  | .recoverIs _ _ => true
   | .repanic _ => true
-  | .setRes _ k => mayPanic k
-  | .setOuter _ k => mayPanic k
+  | .setRes _ k => directRecover k
+  | .setOuter _ k => directRecover k
 
-/-- `domBody code seen`, `seen` = a defer statement of this body has already executed. Excluded:
-    * a deferred callee that may panic while another deferred call of the same frame is pending (F07);
-    * `if x := recover(); x != nil { panic(x) }` (the value comes back boxed once more, F06-3).
-    Statements after a `panic` are dead. (Until the repair of F06-1 a defer statement whose argument is the
-    named result variable was excluded too: the three sites stored the frame slot, not its value.) -/
-def domBody : Code → Bool → Bool
-  | .done, _ => true
-  | .print _ k, s => domBody k s
-  | .printArg k, s => domBody k s
-  | .call f _ _ k, s => domBody f false && domBody k s
-  | .defer f _ k, s => domBody f false && (!s || !mayPanic f) && domBody k true
-  | .deferBin _ _ k, _ => domBody k true
-  | .deferDel _ k, _ => domBody k true
-  | .probe _ k, s => domBody k s
-  | .panic _ _, _ => true
-  | .recover _ k, s => domBody k s
-  | .repanic _, _ => false
-  | .setRes _ k, s => domBody k s
-  | .setOuter _ k, s => domBody k s
+/-- Domain of the refinement theorem (decidable). Excluded, the one class that is still a listed finding:
+    * a deferred function literal held as a value (variable, field, slice element) that calls `recover()` itself —
+      its frame hangs off a stale copy of the defining frame, so it never sees the panic (F06-7).
+    Statements after a `panic` are dead. (Excluded until their repairs: a defer argument that is the named result
+    variable, F06-1; a deferred callee that may panic while another deferred call of the frame is pending, F07;
+    re-panic of the recovered value, F06-3. `defer panic(v)`, F06-4, and literals held as values, F06-2, were
+    outside the language.) -/
+def Dom : Code → Bool
+  | .done => true
+  | .print _ k => Dom k
+  | .printArg k => Dom k
+  | .call f _ _ k => Dom f && Dom k
+  | .defer f _ k => Dom f && Dom k
+  | .deferVar f _ k => Dom f && !directRecover f && Dom k
+  | .deferBin _ _ k => Dom k
+  | .deferDel _ k => Dom k
+  | .deferPanic _ k => Dom k
+  | .probe _ k => Dom k
+  | .panic _ _ => true
+  | .recover _ k => Dom k
+  | .recoverIs _ k => Dom k
+  | .repanic k => Dom k
+  | .setRes _ k => Dom k
+  | .setOuter _ k => Dom k
 
-/-- `NoPanicInDeferred`-style domain of `defer_lifo_exactly_once_partial` (decidable) -/
-def Dom (c : Code) : Bool := domBody c false
+/-- every deferred callee is written at its defer statement (literal, named function, method, builtin):
+    the program does not defer a function literal held as a value -/
+def noHeld : Code → Bool
+  | .done => true
+  | .print _ k => noHeld k
+  | .printArg k => noHeld k
+  | .call f _ _ k => noHeld f && noHeld k
+  | .defer f _ k => noHeld f && noHeld k
+  | .deferVar _ _ _ => false
+  | .deferBin _ _ k => noHeld k
+  | .deferDel _ k => noHeld k
+  | .deferPanic _ k => noHeld k
+  | .probe _ k => noHeld k
+  | .panic _ _ => true
+  | .recover _ k => noHeld k
+  | .recoverIs _ k => noHeld k
+  | .repanic k => noHeld k
+  | .setRes _ k => noHeld k
+  | .setOuter _ k => noHeld k
 
-def Entry.quiet (e : Entry) : Bool :=
-  match e.callee with
-  | .src c => !mayPanic c
-  | _ => true
+theorem dom_of_noHeld : ∀ (c : Code), noHeld c = true → Dom c = true := by
+  intro c
+  induction c with
+  | done => intro _; rfl
+  | print s k ih => intro h; exact ih (by simpa [noHeld] using h)
+  | printArg k ih => intro h; exact ih (by simpa [noHeld] using h)
+  | call f x sh k ihf ih =>
+    intro h
+    simp only [noHeld, Bool.and_eq_true] at h
+    simp [Dom, ihf h.1, ih h.2]
+  | defer f x k ihf ih =>
+    intro h
+    simp only [noHeld, Bool.and_eq_true] at h
+    simp [Dom, ihf h.1, ih h.2]
+  | deferVar f x k _ _ => intro h; simp [noHeld] at h
+  | deferBin s x k ih => intro h; exact ih (by simpa [noHeld] using h)
+  | deferDel t k ih => intro h; exact ih (by simpa [noHeld] using h)
+  | deferPanic v k ih => intro h; exact ih (by simpa [noHeld] using h)
+  | probe t k ih => intro h; exact ih (by simpa [noHeld] using h)
+  | panic v k _ => intro _; rfl
+  | recover sh k ih => intro h; exact ih (by simpa [noHeld] using h)
+  | recoverIs v k ih => intro h; exact ih (by simpa [noHeld] using h)
+  | repanic k ih => intro h; exact ih (by simpa [noHeld] using h)
+  | setRes n k ih => intro h; exact ih (by simpa [noHeld] using h)
+  | setOuter n k ih => intro h; exact ih (by simpa [noHeld] using h)
 
+/-- a deferred entry the refinement covers: its callee is in the domain (a held literal does not call recover
+    itself) and its argument was stored by value -/
 def Entry.ok (e : Entry) : Bool :=
-  (match e.callee with | .src c => Dom c | _ => true) &&
+  (match e.callee with | .src c => Dom c | .held c => Dom c && !directRecover c | _ => true) &&
   (match e.arg with | .val _ => true | .refRes => false)
 
-/-- every entry is in the domain, and every entry except the last (the first one registered) is quiet -/
-def entriesOK : List Entry → Bool
-  | [] => true
-  | [e] => e.ok
-  | e :: e' :: es => e.ok && e.quiet && entriesOK (e' :: es)
-
-theorem entriesOK_cons (e : Entry) (es : List Entry) (h1 : e.ok = true) (h2 : es ≠ [] → e.quiet = true)
-    (h3 : entriesOK es = true) : entriesOK (e :: es) = true := by
-  cases es with
-  | nil => simpa [entriesOK] using h1
-  | cons e' es' => simp [entriesOK, h1, h2, h3]
+theorem allOK_cons (e : Entry) (es : List Entry) (h1 : e.ok = true) (h : ∀ x ∈ es, x.ok = true) :
+    ∀ x ∈ e :: es, x.ok = true := by
+  intro x hx
+  simp only [List.mem_cons] at hx
+  rcases hx with rfl | hx
+  · exact h1
+  · exact h x hx
 
 namespace Spec
 
 /-- a call that is not run by a panicking sequence hands back "nothing to recover" -/
 def NoneStays (cs : CallFn) : Prop := ∀ code a outer w, (cs code a none outer w).2.1 = none
-
-/-- a call tree without panic statements never ends in a panic -/
-def Quiet (cs : CallFn) : Prop :=
-  ∀ code a ctx outer w v, mayPanic code = false → (cs code a ctx outer w).1 ≠ .panic v
 
 theorem execBody_none (cs : CallFn) :
     ∀ (code : Code) (a : Int) (outer : Int) (act : Act) (w : World),
@@ -92,11 +132,14 @@ theorem execBody_none (cs : CallFn) :
     | panic v => rfl
     | fuel => rfl
   | defer f x k _ ih => intros; simp only [execBody]; apply ih
+  | deferVar f x k _ ih => intros; simp only [execBody]; apply ih
   | deferBin s x k ih => intros; simp only [execBody]; apply ih
   | deferDel t k ih => intros; simp only [execBody]; apply ih
+  | deferPanic v k ih => intros; simp only [execBody]; apply ih
   | probe t k ih => intros; simp only [execBody]; apply ih
   | panic v k _ => intros; rfl
   | recover sh k ih => intros; simp only [execBody]; apply ih
+  | recoverIs v k ih => intros; simp only [execBody]; apply ih
   | repanic k ih => intros; simp only [execBody]; apply ih
   | setRes n k ih => intros; simp only [execBody]; apply ih
   | setOuter n k ih => intros; simp only [execBody]; apply ih
@@ -115,111 +158,57 @@ theorem execFn_none : ∀ n, NoneStays (execFn n) := by
     subst hb
     cases sig <;> rfl
 
-theorem allQuiet_push (c : Callee) (n : Int) (act : Act)
-    (hc : (Entry.mk c (.val n)).quiet = true) (h : ∀ e ∈ act.defers, e.quiet = true) :
-    ∀ e ∈ (push c n act).defers, e.quiet = true := by
-  intro e he
-  simp only [push, List.mem_cons] at he
-  rcases he with rfl | he
-  · exact hc
-  · exact h e he
+/-- what a call hands back when the callee never looks at the panic it could stop -/
+def withCtx (ctx : Option Val) (r : Sig × Option Val × Int × Int × World) : Sig × Option Val × Int × Int × World :=
+  (r.1, ctx, r.2.2)
 
-theorem execBody_quiet (cs : CallFn) (hq : Quiet cs) :
-    ∀ (code : Code) (a : Int) (ctx : Option Val) (outer : Int) (act : Act) (w : World) (v : Val),
-      mayPanic code = false → (∀ e ∈ act.defers, e.quiet = true) →
-      (execBody cs code a ctx outer act w).1 ≠ .panic v ∧
-      (∀ e ∈ (execBody cs code a ctx outer act w).2.2.2.1.defers, e.quiet = true) := by
+/-- a function that does not call `recover()` itself behaves the same whether or not a panicking sequence runs it -/
+def CtxFree (cs : CallFn) : Prop :=
+  ∀ code a ctx outer w, directRecover code = false → cs code a ctx outer w = withCtx ctx (cs code a none outer w)
+
+theorem execBody_ctxfree (cs : CallFn) :
+    ∀ (code : Code) (a : Int) (ctx : Option Val) (outer : Int) (act : Act) (w : World),
+      directRecover code = false →
+      execBody cs code a ctx outer act w =
+        ((execBody cs code a none outer act w).1, ctx, (execBody cs code a none outer act w).2.2) := by
   intro code
   induction code with
-  | done => intro a ctx outer act w v _ h; exact ⟨by simp [execBody], by simpa [execBody] using h⟩
-  | print s k ih => intro a ctx outer act w v hm h; simp only [execBody]; exact ih _ _ _ _ _ _ (by simpa [mayPanic] using hm) h
-  | printArg k ih => intro a ctx outer act w v hm h; simp only [execBody]; exact ih _ _ _ _ _ _ (by simpa [mayPanic] using hm) h
-  | call f x sh k ihf ih =>
-    intro a ctx outer act w v hm h
-    simp only [mayPanic, Bool.or_eq_false_iff] at hm
+  | done => intros; rfl
+  | print s k ih => intro a ctx outer act w h; simp only [execBody]; exact ih _ _ _ _ _ (by simpa [directRecover] using h)
+  | printArg k ih => intro a ctx outer act w h; simp only [execBody]; exact ih _ _ _ _ _ (by simpa [directRecover] using h)
+  | call f x sh k _ ih =>
+    intro a ctx outer act w h
     simp only [execBody]
-    have hf := hq f (evalArg x a act) none act.res w
-    generalize cs f (evalArg x a act) none act.res w = r at hf ⊢
+    generalize cs f (evalArg x a act) none act.res w = r
     obtain ⟨sig, c', res', rr, w'⟩ := r
     cases sig with
-    | normal => simp only; exact ih _ _ _ _ _ _ hm.2 h
-    | panic q => exact absurd rfl (hf q hm.1)
-    | fuel => exact ⟨by simp, h⟩
-  | defer f x k _ ih =>
-    intro a ctx outer act w v hm h
-    simp only [mayPanic, Bool.or_eq_false_iff] at hm
-    simp only [execBody]
-    exact ih _ _ _ _ _ _ hm.2 (allQuiet_push _ _ _ (by simp [Entry.quiet, hm.1]) h)
-  | deferBin s x k ih =>
-    intro a ctx outer act w v hm h
-    simp only [execBody]
-    exact ih _ _ _ _ _ _ (by simpa [mayPanic] using hm) (allQuiet_push _ _ _ (by simp [Entry.quiet]) h)
-  | deferDel t k ih =>
-    intro a ctx outer act w v hm h
-    simp only [execBody]
-    exact ih _ _ _ _ _ _ (by simpa [mayPanic] using hm) (allQuiet_push _ _ _ (by simp [Entry.quiet]) h)
-  | probe t k ih => intro a ctx outer act w v hm h; simp only [execBody]; exact ih _ _ _ _ _ _ (by simpa [mayPanic] using hm) h
-  | panic q k _ => intro a ctx outer act w v hm; simp [mayPanic] at hm
-  | recover sh k ih => intro a ctx outer act w v hm h; simp only [execBody]; exact ih _ _ _ _ _ _ (by simpa [mayPanic] using hm) h
-  | repanic k _ => intro a ctx outer act w v hm; simp [mayPanic] at hm
-  | setRes n k ih => intro a ctx outer act w v hm h; simp only [execBody]; exact ih _ _ _ _ _ _ (by simpa [mayPanic] using hm) h
-  | setOuter n k ih => intro a ctx outer act w v hm h; simp only [execBody]; exact ih _ _ _ _ _ _ (by simpa [mayPanic] using hm) h
+    | normal => simp only; exact ih _ _ _ _ _ (by simpa [directRecover] using h)
+    | panic v => rfl
+    | fuel => rfl
+  | defer f x k _ ih => intro a ctx outer act w h; simp only [execBody]; exact ih _ _ _ _ _ (by simpa [directRecover] using h)
+  | deferVar f x k _ ih => intro a ctx outer act w h; simp only [execBody]; exact ih _ _ _ _ _ (by simpa [directRecover] using h)
+  | deferBin s x k ih => intro a ctx outer act w h; simp only [execBody]; exact ih _ _ _ _ _ (by simpa [directRecover] using h)
+  | deferDel t k ih => intro a ctx outer act w h; simp only [execBody]; exact ih _ _ _ _ _ (by simpa [directRecover] using h)
+  | deferPanic v k ih => intro a ctx outer act w h; simp only [execBody]; exact ih _ _ _ _ _ (by simpa [directRecover] using h)
+  | probe t k ih => intro a ctx outer act w h; simp only [execBody]; exact ih _ _ _ _ _ (by simpa [directRecover] using h)
+  | panic v k _ => intros; rfl
+  | recover sh k _ => intro a ctx outer act w h; simp [directRecover] at h
+  | recoverIs v k _ => intro a ctx outer act w h; simp [directRecover] at h
+  | repanic k _ => intro a ctx outer act w h; simp [directRecover] at h
+  | setRes n k ih => intro a ctx outer act w h; simp only [execBody]; exact ih _ _ _ _ _ (by simpa [directRecover] using h)
+  | setOuter n k ih => intro a ctx outer act w h; simp only [execBody]; exact ih _ _ _ _ _ (by simpa [directRecover] using h)
 
-/-- quiet entries run from a non-panicking state leave it non-panicking -/
-theorem runDefers_quiet (cs : CallFn) (hq : Quiet cs) (hn : NoneStays cs) :
-    ∀ (es : List Entry) (res : Int) (w : World), (∀ e ∈ es, e.quiet = true) →
-      (runDefers cs es none res w).2.1 = none ∧ ∀ v, (runDefers cs es none res w).1 ≠ .panic v := by
-  intro es
-  induction es with
-  | nil => intro res w _; exact ⟨rfl, by simp [runDefers]⟩
-  | cons e es ih =>
-    intro res w h
-    have he := h e (by simp)
-    have hes : ∀ e' ∈ es, e'.quiet = true := fun e' h' => h e' (by simp [h'])
-    obtain ⟨callee, arg⟩ := e
-    cases callee with
-    | bin s => simp only [runDefers]; exact ih _ _ hes
-    | del t => simp only [runDefers]; exact ih _ _ hes
-    | src c =>
-      simp only [runDefers]
-      have hc : mayPanic c = false := by simpa [Entry.quiet] using he
-      generalize arg.get res = n
-      have h1 := hq c n none res w
-      have h2 := hn c n res w
-      generalize cs c n none res w = r at h1 h2 ⊢
-      obtain ⟨sig, c', res', rr, w'⟩ := r
-      simp only at h2
-      subst h2
-      cases sig with
-      | normal => simp only; exact ih _ _ hes
-      | panic q => exact absurd rfl (h1 q hc)
-      | fuel => exact ⟨rfl, by simp⟩
-
-theorem execFn_quiet : ∀ n, Quiet (execFn n) := by
+theorem execFn_ctxfree : ∀ n, CtxFree (execFn n) := by
   intro n
-  induction n with
-  | zero => intro code a ctx outer w v _; simp [execFn]
-  | succ n ih =>
-    intro code a ctx outer w v hm
-    simp only [execFn]
-    have hb := execBody_quiet (execFn n) ih code a ctx outer ⟨[], 0⟩ w
-    generalize execBody (execFn n) code a ctx outer ⟨[], 0⟩ w = r at hb ⊢
+  cases n with
+  | zero => intro code a ctx outer w _; rfl
+  | succ n =>
+    intro code a ctx outer w h
+    simp only [execFn, withCtx]
+    rw [execBody_ctxfree (execFn n) code a ctx outer ⟨[], 0⟩ w h]
+    generalize execBody (execFn n) code a none outer ⟨[], 0⟩ w = r
     obtain ⟨sig, c', o', act, w'⟩ := r
-    cases sig with
-    | fuel => simp
-    | panic q => exact absurd rfl ((hb q hm (by simp)).1)
-    | normal =>
-      simp only [pendingOf]
-      have hd := runDefers_quiet (execFn n) ih (execFn_none n) act.defers act.res w' ((hb v hm (by simp)).2)
-      generalize runDefers (execFn n) act.defers none act.res w' = r2 at hd ⊢
-      obtain ⟨sig2, cur, res2, w2⟩ := r2
-      obtain ⟨h1, h2⟩ := hd
-      simp only at h1 h2
-      subst h1
-      cases sig2 with
-      | normal => simp [finish]
-      | fuel => simp [finish]
-      | panic q => exact absurd rfl (h2 q)
+    cases sig <;> rfl
 
 end Spec
 
@@ -230,11 +219,14 @@ def depth : Code → Nat
   | .printArg k => depth k
   | .call f _ _ k => max (depth f + 1) (depth k)
   | .defer f _ k => max (depth f + 1) (depth k)
+  | .deferVar f _ k => max (depth f + 1) (depth k)
   | .deferBin _ _ k => depth k
   | .deferDel _ k => depth k
+  | .deferPanic _ k => depth k
   | .probe _ k => depth k
   | .panic _ _ => 0
   | .recover _ k => depth k
+  | .recoverIs _ k => depth k
   | .repanic k => depth k
   | .setRes _ k => depth k
   | .setOuter _ k => depth k
@@ -242,6 +234,7 @@ def depth : Code → Nat
 def Entry.shallow (n : Nat) (e : Entry) : Prop :=
   match e.callee with
   | .src c => depth c < n
+  | .held c => depth c < n
   | _ => True
 
 namespace Spec
@@ -262,6 +255,7 @@ theorem execBody_enough (n : Nat) (cs : CallFn) (hcs : Enough n cs) :
   | printArg k ih => intro a ctx outer act w hd h; simp only [execBody]; exact ih _ _ _ _ _ (by simpa [depth] using hd) h
   | probe t k ih => intro a ctx outer act w hd h; simp only [execBody]; exact ih _ _ _ _ _ (by simpa [depth] using hd) h
   | recover sh k ih => intro a ctx outer act w hd h; simp only [execBody]; exact ih _ _ _ _ _ (by simpa [depth] using hd) h
+  | recoverIs v k ih => intro a ctx outer act w hd h; simp only [execBody]; exact ih _ _ _ _ _ (by simpa [depth] using hd) h
   | setRes m k ih => intro a ctx outer act w hd h; simp only [execBody]; exact ih _ _ _ _ _ (by simpa [depth] using hd) h
   | setOuter m k ih => intro a ctx outer act w hd h; simp only [execBody]; exact ih _ _ _ _ _ (by simpa [depth] using hd) h
   | panic v k _ => intro a ctx outer act w _ h; exact ⟨by simp [execBody], h⟩
@@ -289,7 +283,26 @@ theorem execBody_enough (n : Nat) (cs : CallFn) (hcs : Enough n cs) :
     rcases he with rfl | he
     · simp [Entry.shallow]
     · exact h e he
+  | deferPanic v k ih =>
+    intro a ctx outer act w hd h
+    simp only [execBody]
+    refine ih _ _ _ _ _ (by simpa [depth] using hd) ?_
+    intro e he
+    simp only [push, List.mem_cons] at he
+    rcases he with rfl | he
+    · simp [Entry.shallow]
+    · exact h e he
   | defer f x k _ ih =>
+    intro a ctx outer act w hd h
+    simp only [depth] at hd
+    simp only [execBody]
+    refine ih _ _ _ _ _ (by omega) ?_
+    intro e he
+    simp only [push, List.mem_cons] at he
+    rcases he with rfl | he
+    · simp only [Entry.shallow]; omega
+    · exact h e he
+  | deferVar f x k _ ih =>
     intro a ctx outer act w hd h
     simp only [depth] at hd
     simp only [execBody]
@@ -325,7 +338,17 @@ theorem runDefers_enough (n : Nat) (cs : CallFn) (hcs : Enough n cs) :
     cases callee with
     | bin s => simp only [runDefers]; exact ih _ _ _ hes
     | del t => simp only [runDefers]; exact ih _ _ _ hes
+    | pan v => simp only [runDefers]; exact ih _ _ _ hes
     | src c =>
+      simp only [runDefers]
+      have hc := hcs c (arg.get res) cur res w he
+      generalize cs c (arg.get res) cur res w = r at hc ⊢
+      obtain ⟨sig, c', res', rr, w'⟩ := r
+      cases sig with
+      | normal => simp only; exact ih _ _ _ hes
+      | panic q => simp only; exact ih _ _ _ hes
+      | fuel => exact absurd rfl hc
+    | held c =>
       simp only [runDefers]
       have hc := hcs c (arg.get res) cur res w he
       generalize cs c (arg.get res) cur res w = r at hc ⊢
